@@ -439,7 +439,9 @@ Replay(k, s, ops) == IF ops = <<>> THEN s
 FreshEquiv == st = Replay(ekind, InitState(ekind), since)
 ResetIsFresh == [][op' = "reset" => st' = InitState(FreshKind(kind))]_vars
 \* result context = context of the last filled value, extended only by the element's own keys
-OwnKeys(k) == CASE k.t = "Count" -> {k.name} [] k.t = "Graph" -> {"scale", "dim"} [] OTHER -> {}
+OwnKeys(k) == CASE k.t = "Count" -> {k.name} [] k.t = "Graph" -> {"scale", "dim"}
+                [] k.t = "Mean" /\ k.inner = "Count" -> {"count"}       \* the context of the sum_seq's result
+                [] OTHER -> {}
 ContextOfLast ==
   (op = "compute" /\ res.ok /\ ekind.t \notin {"Store", "GroupBy"}) =>
      \A j \in 1..Len(res.out) :
